@@ -128,5 +128,5 @@ class ForbiddenExtraKeysError(Exception):
 
         super().__init__(
             message
-            or f"Extra fields in constructor for {cln}: {', '.join(extra_fields)}"
+            or f"Extra fields in constructor for {cln}: {', '.join(map(str, extra_fields))}"
         )
